@@ -204,79 +204,95 @@ pub fn run(ctx: &Ctx) -> Report {
         }
     }
     // ---- 3. structured composite families, completely enumerated within bounds
-    let pmax: u64 = ctx.pick(1 << 21, 1 << 25);
-    let small = rm::OddSieve::new(3 * pmax + 8);
-    let fams: Vec<(u64, u64, u64, u64)> = (0..16u64)
+    // n = p * (a p - b) with both factors prime, for (a, b) in {(2,1), (3,2), (4,3), (5,4)}: the
+    // shapes that carry almost all strong pseudoprimes to several bases. EVERY such n below 2^64
+    // is enumerated (p up to 2^31.5 for a = 2) with a segmented sieve over p; the quick tier
+    // covers the whole (2,1) family and p < 2^29 for the other three.
+    const FAMS: [(u64, u64); 4] = [(2, 1), (3, 2), (4, 3), (5, 4)];
+    let fam_pmax = |a: u64, bb: u64| -> u64 {
+        // largest p with p*(a p - b) < 2^64
+        let mut p = ((u64::MAX as f64) / a as f64).sqrt() as u64 + 4;
+        while (p as u128) * ((a * p - bb) as u128) >> 64 != 0 {
+            p -= 1;
+        }
+        p
+    };
+    let other_cap: u64 = ctx.pick(1 << 29, u64::MAX);
+    let pmaxes: Vec<u64> = FAMS.iter().map(|&(a, bb)| if a == 2 { fam_pmax(a, bb) } else { fam_pmax(a, bb).min(other_cap) }).collect();
+    let pmax = *pmaxes.iter().max().unwrap();
+    let base_primes = rm::primes_below(1 << 16);
+    const SEG: u64 = 1 << 22;
+    let nseg = (pmax + SEG) / SEG;
+    let fams: Vec<(u64, u64, u64, Vec<(u64, u64, u64)>)> = (0..nseg)
         .into_par_iter()
-        .map(|shard| {
-            // returns (cases, spsp{2,3}, spsp{2..11}, wrong)
+        .map(|sg| {
+            // returns (cases, spsp{2,3}, spsp{2..11}, wrong: (n, p, q))
+            let lo = sg * SEG;
+            let hi = (lo + SEG).min(pmax + 1);
+            let mut comp = vec![false; (hi - lo) as usize];
+            for &bp in &base_primes {
+                if bp * bp >= hi {
+                    break;
+                }
+                let mut m = ((lo + bp - 1) / bp).max(bp) * bp;
+                while m < hi {
+                    comp[(m - lo) as usize] = true;
+                    m += bp;
+                }
+            }
             let mut cases = 0;
             let mut s23 = 0;
             let mut s11 = 0;
-            let mut wrong = 0;
-            let mut p = 3 + 2 * shard;
-            while p < pmax {
-                if small.is_prime(p) {
-                    for (a, b) in [(2u64, 1u64), (3, 2), (4, 3), (5, 4)] {
-                        // n = p * (a p - b) with both prime
-                        let q = a * p - b;
-                        if q < 3 * pmax && q % 2 == 1 && small.is_prime(q) || (q >= 3 * pmax && rm::is_prime_u64(q)) {
-                            let n = p as u128 * q as u128;
-                            if n >> 64 != 0 {
-                                continue;
-                            }
-                            let n = n as u64;
-                            cases += 1;
-                            let is23 = rm::sprp64(n, 2) && rm::sprp64(n, 3);
-                            if is23 {
-                                s23 += 1;
-                                if [5u64, 7, 11].iter().all(|&b| rm::sprp64(n, b)) {
-                                    s11 += 1;
-                                }
-                            }
-                            if isprime64(n) {
-                                wrong += 1;
-                            }
+            let mut wrong = vec![];
+            for p in lo.max(3)..hi {
+                if comp[(p - lo) as usize] {
+                    continue;
+                }
+                for (fi, &(a, bb)) in FAMS.iter().enumerate() {
+                    if p > pmaxes[fi] {
+                        continue;
+                    }
+                    let q = a * p - bb;
+                    if q % 2 == 0 || q % 3 == 0 && q != 3 || q % 5 == 0 && q != 5 || q % 7 == 0 && q != 7 {
+                        continue;
+                    }
+                    if !rm::is_prime_u64(q) {
+                        continue;
+                    }
+                    let n = p * q;
+                    cases += 1;
+                    if rm::sprp64(n, 2) && rm::sprp64(n, 3) {
+                        s23 += 1;
+                        if [5u64, 7, 11].iter().all(|&b| rm::sprp64(n, b)) {
+                            s11 += 1;
                         }
                     }
+                    if isprime64(n) && wrong.len() < 10 {
+                        wrong.push((n, p, q));
+                    }
                 }
-                p += 32;
             }
             (cases, s23, s11, wrong)
         })
         .collect();
-    let (mut fc, mut f23, mut f11, mut fw) = (0, 0, 0, 0);
+    let (mut fc, mut f23, mut f11) = (0, 0, 0);
+    let mut fwrong: Vec<(u64, u64, u64)> = vec![];
     for (a, b, c, d) in fams {
         fc += a;
         f23 += b;
         f11 += c;
-        fw += d;
+        fwrong.extend(d);
     }
     rep.evaluations += fc;
     nontrivial_composites += f23;
-    if fw > 0 {
-        // re-derive the offenders sequentially for the replay files
-        let mut p = 3;
-        let mut found = 0;
-        while p < pmax && found < 10 {
-            if small.is_prime(p) {
-                for (a, b) in [(2u64, 1u64), (3, 2), (4, 3), (5, 4)] {
-                    let q = a * p - b;
-                    if rm::is_prime_u64(q) {
-                        let n = p as u128 * q as u128;
-                        if n >> 64 == 0 && isprime64(n as u64) {
-                            found += 1;
-                            rep.violation(
-                                format!("fn=isprime64;what=wrong;family=p(ap-b);p={}", n),
-                                format!("isprime64({}) = true but n = {} * {}", n, p, q),
-                                J::obj(vec![("fn", J::s("isprime64")), ("p", J::s(n))]),
-                            );
-                        }
-                    }
-                }
-            }
-            p += 2;
-        }
+    rep.set("family_p_ap_b_pmax", J::s(format!("{:?}", pmaxes)));
+    fwrong.sort();
+    for &(n, p, q) in fwrong.iter().take(10) {
+        rep.violation(
+            format!("fn=isprime64;what=wrong;family=p(ap-b);p={}", n),
+            format!("isprime64({}) = true but n = {} * {}", n, p, q),
+            J::obj(vec![("fn", J::s("isprime64")), ("p", J::s(n))]),
+        );
     }
     // Carmichael numbers (6k+1)(12k+1)(18k+1): every k below kmax, then every k of windows
     // placed so that the products have 65..135 bits (multiprecision test only)
@@ -421,7 +437,7 @@ pub fn run(ctx: &Ctx) -> Report {
     rep.sample(J::obj(vec![("isprime64", J::s(2152302898747u64)), ("expected", J::B(false)), ("family", J::s("psi_5, in [2^40,2^41)"))]));
     rep.sample(J::obj(vec![("isprime64", J::s("every p < limit")), ("limit", J::from(limit)), ("oracle", J::s("odd-only Eratosthenes bit table"))]));
     rep.sample(J::obj(vec![("pseudoprime", J::s(bigprimes[bigprimes.len() - 1])), ("expected", J::B(true))]));
-    rep.rule = format!("isprime64 on EVERY p < {} against an Eratosthenes table; every p in complete windows of width 2^13 around 2^20, 2^32, 2^40, 2^41, 2^63 and below 2^64 (thorough: 9 more) against the reference test; every n = p(ap-b) with (a,b) in {{(2,1),(3,2),(4,3),(5,4)}}, p < {} and both factors prime; every Chernick Carmichael number with k < {} and with k in windows at 2^18,2^20,2^24,2^30,2^36,2^40 (65..135-bit products); psi_1..psi_13; even inputs in a watchdogged subprocess; pseudoprime() on all of those that fit plus [0,2^16], certified boundary primes of 65..500 bits (accept), their even neighbours and every c*2^sh+d (c in 1,3; sh in 64..498; d in 0,2,4,6) (reject) and all pairwise products <= 500 bits (reject). distinct_nontrivial = primes confirmed + composites that are strong pseudoprimes to {{2,3}} (inputs a weakened tier would misjudge) + psi list + big products.", limit, pmax, kmax);
+    rep.rule = format!("isprime64 on EVERY p < {} against an Eratosthenes table; every p in complete windows of width 2^13 around 2^20, 2^32, 2^40, 2^41, 2^63 and below 2^64 (thorough: 9 more) against the reference test; every n = p(ap-b) with (a,b) in {{(2,1),(3,2),(4,3),(5,4)}}, both factors prime and p up to {} respectively (segmented sieve over p; for (2,1) this is every such n below 2^64); every Chernick Carmichael number with k < {} and with k in windows at 2^18,2^20,2^24,2^30,2^36,2^40 (65..135-bit products); psi_1..psi_13; even inputs in a watchdogged subprocess; pseudoprime() on all of those that fit plus [0,2^16], certified boundary primes of 65..500 bits (accept), their even neighbours and every c*2^sh+d (c in 1,3; sh in 64..498; d in 0,2,4,6) (reject) and all pairwise products <= 500 bits (reject). distinct_nontrivial = primes confirmed + composites that are strong pseudoprimes to {{2,3}} (inputs a weakened tier would misjudge) + psi list + big products.", limit, format!("{:?}", pmaxes), kmax);
     rep.assumptions.push("reference: Eratosthenes below the limit; trial division + 12-base Miller-Rabin (deterministic below 3.18e23) on u64; MR24 + strong Lucas above".into());
     rep
 }
